@@ -10,6 +10,7 @@ package main
 import (
 	_ "embed"
 	"fmt"
+	"go/ast"
 	"go/types"
 	"sort"
 	"strings"
@@ -112,5 +113,349 @@ func (p *Prog) resolveRenames() {
 			p.alias = map[*types.Func]string{}
 		}
 		p.alias[fn.Obj.Origin()] = old
+	}
+}
+
+// ---------------------------------------------------------------- local names
+
+//go:embed locals_baseline.txt
+var localsBaseline string
+
+type localDecl struct {
+	obj types.Object
+	typ string
+}
+
+// localsOf lists the receiver, parameters, results and local variables of fn in declaration order.
+func (p *Prog) localsOf(fn *Func) []localDecl {
+	var out []localDecl
+	seen := map[types.Object]bool{}
+	q := func(pk *types.Package) string { return p.PkgShort(pk.Path()) }
+	add := func(id *ast.Ident) {
+		if id == nil || id.Name == "_" {
+			return
+		}
+		o := p.Info.Defs[id]
+		if o == nil {
+			return
+		}
+		v, ok := o.(*types.Var)
+		if !ok || v.IsField() || seen[o] {
+			return
+		}
+		seen[o] = true
+		out = append(out, localDecl{o, types.TypeString(v.Type(), q)})
+	}
+	ast.Inspect(fn.Decl, func(n ast.Node) bool {
+		if id, ok := n.(*ast.Ident); ok {
+			add(id)
+		}
+		return true
+	})
+	// the symbolic variable of a type switch has one implicit object per clause: name them after the first
+	return out
+}
+
+func (p *Prog) dumpLocals() {
+	var lines []string
+	for _, fn := range p.funcs {
+		if fn.Decl.Body == nil || strings.Contains(fn.Name, "#") {
+			continue
+		}
+		var parts []string
+		for _, l := range p.localsOf(fn) {
+			parts = append(parts, l.obj.Name()+"\x1f"+l.typ)
+		}
+		if len(parts) > 0 {
+			lines = append(lines, fn.Name+"\t"+strings.Join(parts, "\x1e"))
+		}
+	}
+	sort.Strings(lines)
+	for _, l := range lines {
+		fmt.Println(l)
+	}
+}
+
+// resolveLocalRenames: inside the checker a renamed local, parameter or receiver prints under the name it has
+// in the reference tree (p.Src, keys of obligations), so that rules and exceptions written against those names
+// keep applying.  Locals are aligned by declaration order and type; a function whose locals do not align keeps
+// its own names.  Never used to raise an alarm.
+func (p *Prog) resolveLocalRenames() {
+	p.localAlias = map[types.Object]string{}
+	base := map[string][][2]string{}
+	for _, l := range strings.Split(localsBaseline, "\n") {
+		parts := strings.SplitN(l, "\t", 2)
+		if len(parts) != 2 {
+			continue
+		}
+		var ds [][2]string
+		for _, d := range strings.Split(parts[1], "\x1e") {
+			nt := strings.SplitN(d, "\x1f", 2)
+			if len(nt) == 2 {
+				ds = append(ds, [2]string{nt[0], nt[1]})
+			}
+		}
+		base[parts[0]] = ds
+	}
+	for _, fn := range p.funcs {
+		old, ok := base[fn.Name]
+		if !ok || fn.Decl.Body == nil {
+			continue
+		}
+		cur := p.localsOf(fn)
+		same := len(cur) == len(old)
+		if same {
+			for i := range cur {
+				if cur[i].obj.Name() != old[i][0] {
+					same = false
+				}
+			}
+		}
+		if same {
+			continue
+		}
+		// align on the sequence of types (longest common subsequence)
+		n, m := len(old), len(cur)
+		lcs := make([][]int, n+1)
+		for i := range lcs {
+			lcs[i] = make([]int, m+1)
+		}
+		for i := n - 1; i >= 0; i-- {
+			for j := m - 1; j >= 0; j-- {
+				if old[i][1] == cur[j].typ {
+					lcs[i][j] = lcs[i+1][j+1] + 1
+					// prefer keeping equal names aligned
+					if old[i][0] == cur[j].obj.Name() {
+						lcs[i][j]++
+					}
+				}
+				if lcs[i+1][j] > lcs[i][j] {
+					lcs[i][j] = lcs[i+1][j]
+				}
+				if lcs[i][j+1] > lcs[i][j] {
+					lcs[i][j] = lcs[i][j+1]
+				}
+			}
+		}
+		used := map[string]bool{}
+		for _, c := range cur {
+			used[c.obj.Name()] = true
+		}
+		i, j := 0, 0
+		for i < n && j < m {
+			match := old[i][1] == cur[j].typ
+			val := 0
+			if match {
+				val = lcs[i+1][j+1] + 1
+				if old[i][0] == cur[j].obj.Name() {
+					val++
+				}
+			}
+			switch {
+			case match && val == lcs[i][j]:
+				if old[i][0] != cur[j].obj.Name() {
+					p.localAlias[cur[j].obj] = old[i][0]
+				}
+				i++
+				j++
+			case lcs[i+1][j] >= lcs[i][j+1]:
+				i++
+			default:
+				j++
+			}
+		}
+	}
+	// the per-clause objects of a type switch share the name of the symbolic variable
+	for id, o := range p.Info.Implicits {
+		_ = id
+		_ = o
+	}
+}
+
+// aliasName: the name a local prints under.
+func (p *Prog) aliasName(id *ast.Ident) string {
+	if len(p.localAlias) == 0 {
+		return id.Name
+	}
+	o := p.ObjOf(id)
+	if o == nil {
+		return id.Name
+	}
+	if a, ok := p.localAlias[o]; ok {
+		return a
+	}
+	// implicit per-clause variable of a type switch: same position-declared symbol
+	if v, isVar := o.(*types.Var); isVar && !v.IsField() {
+		if a, ok := p.localAliasByPos[v.Pos()]; ok {
+			return a
+		}
+	}
+	return id.Name
+}
+
+// aliased returns e, or a copy of e in which renamed locals carry their reference names.
+func (p *Prog) aliased(e ast.Expr) ast.Expr {
+	if (len(p.localAlias) == 0 && len(p.fieldAlias) == 0) || e == nil {
+		return e
+	}
+	need := false
+	ast.Inspect(e, func(n ast.Node) bool {
+		if id, ok := n.(*ast.Ident); ok && !need {
+			if p.aliasName(id) != id.Name {
+				need = true
+			} else if v, isVar := p.ObjOf(id).(*types.Var); isVar && v.IsField() {
+				if _, has := p.fieldAlias[v]; has {
+					need = true
+				}
+			}
+		}
+		return !need
+	})
+	if !need {
+		return e
+	}
+	return p.aliasCopy(e)
+}
+
+func (p *Prog) aliasCopy(e ast.Expr) ast.Expr {
+	if e == nil {
+		return nil
+	}
+	cp := func(x ast.Expr) ast.Expr { return p.aliasCopy(x) }
+	cps := func(xs []ast.Expr) []ast.Expr {
+		if xs == nil {
+			return nil
+		}
+		out := make([]ast.Expr, len(xs))
+		for i, x := range xs {
+			out[i] = cp(x)
+		}
+		return out
+	}
+	switch x := e.(type) {
+	case *ast.Ident:
+		if a := p.aliasName(x); a != x.Name {
+			return &ast.Ident{NamePos: x.NamePos, Name: a}
+		}
+		return x
+	case *ast.ParenExpr:
+		return &ast.ParenExpr{Lparen: x.Lparen, X: cp(x.X), Rparen: x.Rparen}
+	case *ast.SelectorExpr:
+		sel := x.Sel
+		if v, ok := p.ObjOf(sel).(*types.Var); ok {
+			if a, has := p.fieldAlias[v]; has {
+				sel = &ast.Ident{NamePos: sel.NamePos, Name: a}
+			}
+		}
+		return &ast.SelectorExpr{X: cp(x.X), Sel: sel}
+	case *ast.StarExpr:
+		return &ast.StarExpr{Star: x.Star, X: cp(x.X)}
+	case *ast.UnaryExpr:
+		return &ast.UnaryExpr{OpPos: x.OpPos, Op: x.Op, X: cp(x.X)}
+	case *ast.BinaryExpr:
+		return &ast.BinaryExpr{X: cp(x.X), OpPos: x.OpPos, Op: x.Op, Y: cp(x.Y)}
+	case *ast.CallExpr:
+		return &ast.CallExpr{Fun: cp(x.Fun), Lparen: x.Lparen, Args: cps(x.Args), Ellipsis: x.Ellipsis, Rparen: x.Rparen}
+	case *ast.IndexExpr:
+		return &ast.IndexExpr{X: cp(x.X), Lbrack: x.Lbrack, Index: cp(x.Index), Rbrack: x.Rbrack}
+	case *ast.SliceExpr:
+		return &ast.SliceExpr{X: cp(x.X), Lbrack: x.Lbrack, Low: cp(x.Low), High: cp(x.High), Max: cp(x.Max), Slice3: x.Slice3, Rbrack: x.Rbrack}
+	case *ast.TypeAssertExpr:
+		return &ast.TypeAssertExpr{X: cp(x.X), Lparen: x.Lparen, Type: x.Type, Rparen: x.Rparen}
+	case *ast.KeyValueExpr:
+		return &ast.KeyValueExpr{Key: x.Key, Colon: x.Colon, Value: cp(x.Value)}
+	case *ast.CompositeLit:
+		return &ast.CompositeLit{Type: x.Type, Lbrace: x.Lbrace, Elts: cps(x.Elts), Rbrace: x.Rbrace, Incomplete: x.Incomplete}
+	}
+	return e
+}
+
+// ---------------------------------------------------------------- struct fields
+
+//go:embed fields_baseline.txt
+var fieldsBaseline string
+
+func (p *Prog) dumpFields() {
+	var lines []string
+	q := func(pk *types.Package) string { return pk.Path() }
+	for _, pk := range p.Pkgs {
+		sc := pk.Types.Scope()
+		for _, n := range sc.Names() {
+			tn, ok := sc.Lookup(n).(*types.TypeName)
+			if !ok {
+				continue
+			}
+			st, ok := tn.Type().Underlying().(*types.Struct)
+			if !ok {
+				continue
+			}
+			for i := 0; i < st.NumFields(); i++ {
+				f := st.Field(i)
+				if f.Exported() || f.Embedded() {
+					continue
+				}
+				lines = append(lines, p.pkgName[pk.PkgPath]+"."+n+"."+f.Name()+"\t"+types.TypeString(f.Type(), q))
+			}
+		}
+	}
+	sort.Strings(lines)
+	for _, l := range lines {
+		fmt.Println(l)
+	}
+}
+
+// resolveFieldRenames: an unexported struct field of the reference tree that is gone, while the same struct has
+// exactly one new unexported field of the same type, is that field under a new name.
+func (p *Prog) resolveFieldRenames() {
+	p.fieldAlias = map[*types.Var]string{}
+	p.fieldByOld = map[string]*types.Var{}
+	base := map[string]map[string]string{} // struct -> field -> type
+	for _, l := range strings.Split(fieldsBaseline, "\n") {
+		parts := strings.SplitN(l, "\t", 2)
+		if len(parts) != 2 {
+			continue
+		}
+		i := strings.LastIndex(parts[0], ".")
+		if i < 0 {
+			continue
+		}
+		s, f := parts[0][:i], parts[0][i+1:]
+		if base[s] == nil {
+			base[s] = map[string]string{}
+		}
+		base[s][f] = parts[1]
+	}
+	q := func(pk *types.Package) string { return pk.Path() }
+	for sname, fields := range base {
+		st := p.Struct(sname)
+		if st == nil {
+			continue
+		}
+		cur := map[string]*types.Var{}
+		for i := 0; i < st.NumFields(); i++ {
+			cur[st.Field(i).Name()] = st.Field(i)
+		}
+		missing := map[string][]string{} // type -> old names
+		for f, t := range fields {
+			if cur[f] == nil {
+				missing[t] = append(missing[t], f)
+			}
+		}
+		if len(missing) == 0 {
+			continue
+		}
+		fresh := map[string][]*types.Var{}
+		for name, v := range cur {
+			if _, known := fields[name]; !known && !v.Exported() && !v.Embedded() {
+				t := types.TypeString(v.Type(), q)
+				fresh[t] = append(fresh[t], v)
+			}
+		}
+		for t, olds := range missing {
+			if len(olds) == 1 && len(fresh[t]) == 1 {
+				p.fieldAlias[fresh[t][0]] = olds[0]
+				p.fieldByOld[sname+"."+olds[0]] = fresh[t][0]
+			}
+		}
 	}
 }
